@@ -18,6 +18,8 @@ pub fn mul_redc<const N: usize>(a: [u64; N], b: [u64; N], modulus: [u64; N], inv
     // See <https://www.microsoft.com/en-us/research/wp-content/uploads/1998/06/97Acar.pdf>
     // See <https://hackmd.io/@gnark/modular_multiplication#fn1>
     // See <https://tches.iacr.org/index.php/TCHES/article/view/10972>
+    #[cfg(recmo_uint_verif)]
+    crate::__verif::hit(crate::__verif::REDC_MUL_CALL);
     let mut result = [0; N];
     let mut carry = false;
     for b in b {
@@ -50,8 +52,17 @@ pub fn mul_redc<const N: usize>(a: [u64; N], b: [u64; N], modulus: [u64; N], inv
         let (value, next_carry) = carrying_add(carry_1, carry_2, carry);
         result[N - 1] = value;
         if modulus[N - 1] >= 0x7fff_ffff_ffff_ffff {
+            #[cfg(recmo_uint_verif)]
+            {
+                crate::__verif::hit(crate::__verif::REDC_MUL_CARRY_TRACKED);
+                if next_carry {
+                    crate::__verif::hit(crate::__verif::REDC_MUL_CARRY_SET);
+                }
+            }
             carry = next_carry;
         } else {
+            #[cfg(recmo_uint_verif)]
+            crate::__verif::hit(crate::__verif::REDC_MUL_CARRY_IGNORED);
             debug_assert!(!next_carry);
         }
     }
@@ -71,6 +82,8 @@ pub fn square_redc<const N: usize>(a: [u64; N], modulus: [u64; N], inv: u64) -> 
     debug_assert_eq!(inv.wrapping_mul(modulus[0]), u64::MAX);
     debug_assert_eq!(cmp(&a, &modulus), Ordering::Less);
 
+    #[cfg(recmo_uint_verif)]
+    crate::__verif::hit(crate::__verif::REDC_SQ_CALL);
     let mut result = [0; N];
     let mut carry_outer = 0;
     for i in 0..N {
@@ -98,6 +111,13 @@ pub fn square_redc<const N: usize>(a: [u64; N], modulus: [u64; N], inv: u64) -> 
 
         // Add carries
         if modulus[N - 1] >= 0x3fff_ffff_ffff_ffff {
+            #[cfg(recmo_uint_verif)]
+            {
+                crate::__verif::hit(crate::__verif::REDC_SQ_WIDE);
+                if carry_hi {
+                    crate::__verif::hit(crate::__verif::REDC_SQ_CARRY_HI);
+                }
+            }
             let wide = (carry_outer as u128)
                 .wrapping_add(carry_lo as u128)
                 .wrapping_add((carry_hi as u128) << 64)
@@ -106,8 +126,16 @@ pub fn square_redc<const N: usize>(a: [u64; N], modulus: [u64; N], inv: u64) -> 
 
             // Note carry_outer can be {0, 1, 2}.
             carry_outer = (wide >> 64) as u64;
+            #[cfg(recmo_uint_verif)]
+            crate::__verif::hit(match carry_outer {
+                0 => crate::__verif::REDC_SQ_OUTER_0,
+                1 => crate::__verif::REDC_SQ_OUTER_1,
+                _ => crate::__verif::REDC_SQ_OUTER_2,
+            });
             debug_assert!(carry_outer <= 2);
         } else {
+            #[cfg(recmo_uint_verif)]
+            crate::__verif::hit(crate::__verif::REDC_SQ_NARROW);
             // `carry_outer` and `carry_hi` are always zero.
             debug_assert!(!carry_hi);
             debug_assert_eq!(carry_outer, 0);
@@ -129,6 +157,14 @@ fn reduce1_carry<const N: usize>(value: [u64; N], modulus: [u64; N], carry: bool
     let (reduced, borrow) = sub(value, modulus);
     // TODO: Ideally this turns into a cmov, which makes the whole mul_redc constant
     // time.
+    #[cfg(recmo_uint_verif)]
+    crate::__verif::hit(if carry {
+        crate::__verif::REDC_REDUCE_SUB_CARRY
+    } else if !borrow {
+        crate::__verif::REDC_REDUCE_SUB_NOBORROW
+    } else {
+        crate::__verif::REDC_REDUCE_KEEP
+    });
     if carry | !borrow {
         reduced
     } else {
